@@ -35,7 +35,7 @@ var (
 		"/d[1]", "/d%5B1%5D", "/m;v=1", "/m%3Bv%3D1", "/x^y", "/x%5Ey", "/p:q@r", "/p%3Aq%40r"}
 	uQueries = []string{"", "?", "?q=1", "?q=%31", "?Q=1", "?q=%E9", "?q=%e9", "?q=\xe9", "?q=é", "?q=%C3%A9", "?a=1&b=2", "?b=2&a=1", "?q=a+b", "?q=a%2Bb", "?q=a%2bb", "?q=a%20b",
 		"?i[]=1", "?i%5B%5D=1", "?q=a%26b", "?q=a%3Db", "?q=a/b?c", "?q=a%2Fb%3Fc"}
-	uFrags   = []string{"", "#f"}
+	uFrags = []string{"", "#f"}
 )
 
 type uCase struct {
@@ -176,7 +176,9 @@ func observeAllKeys(t *testing.T, e *mc.Explorer, cases []*uCase, tag string) (m
 }
 
 // confirmSeq requests a (which is stored), then b, on the same transport; reports whether b received a's response.
-func confirmSeq(t *testing.T, a, b string) (reused bool, narrative []string) { return confirmPair(t, a, b) }
+func confirmSeq(t *testing.T, a, b string) (reused bool, narrative []string) {
+	return confirmPair(t, a, b)
+}
 
 func strHash(s string) uint32 { h := fnv.New32a(); h.Write([]byte(s)); return h.Sum32() }
 
